@@ -21,7 +21,7 @@ SCRATCH = os.path.join(vlib.WORK, PID)
 THEOREMS = [
     "export_length", "export_places_children", "export_places_descendants", "export_fill",
     "align_only_extends", "validate_iff", "validate_nonempty_bytes", "add_image_sorted",
-    "append_image_at_end", "load_places_segments", "hex_view_is_export", "hex_view_is_export_refuted",
+    "append_image_at_end", "load_places_segments", "hex_view_is_export", "hex_view_total_with_root_pattern",
     "segments_sound", "build_wf_constructed",
 ]
 PAT_TEXT = {0: "zeros", 1: "ones", 2: "inc"}
@@ -183,9 +183,10 @@ def data_mask(n, base, mask):
 
 
 def unpatterned_under_pattern(n, covered=False):
+    """a node without a pattern below an ancestor that writes data (a pattern or an own binary) -- class of C16-F1"""
     if n["pat"] is None and covered:
         return True
-    return any(unpatterned_under_pattern(k, covered or n["pat"] is not None) for k in n["kids"])
+    return any(unpatterned_under_pattern(k, covered or n["pat"] is not None or len(n["bin"]) > 0) for k in n["kids"])
 
 
 def is_text(b):
@@ -194,6 +195,23 @@ def is_text(b):
         return True
     except UnicodeDecodeError:
         return False
+
+
+def is_text_image(b):
+    """Does bincopy's format guess take the content for a SREC / Intel-HEX / TI-TXT / Verilog-VMEM text image (it parses
+    with data, or its first record is valid and a later one is not)?  bincopy is used here only to name the input class
+    of the remaining finding C16-F2; such a BIN file is indistinguishable from a text image."""
+    if not is_text(b):
+        return False
+    import bincopy
+    bf = bincopy.BinFile()
+    try:
+        bf.add(b.decode("utf-8"))
+    except bincopy.UnsupportedFileFormatError:
+        return False
+    except Exception:  # noqa   guessed as a text format, then rejected by its parser
+        return True
+    return len(bf.segments) > 0
 
 
 def oracle_tree(t, res):
@@ -267,35 +285,48 @@ def oracle_fmt(t, case, res):
             if not E:
                 continue
             lo, hi = base, base + len(E)
-            want_off = 0                     # a BIN file carries no address
         else:
             mask = set()
             data_mask(n, 0, mask)
             if not mask:
+                # nothing to save: the load may be refused, but it must not invent bytes
+                if r.get("save") == "ok" and r.get("load") == "ok":
+                    out.append((f"save_load:{fmt}:dataless-image-loads-file-text",
+                                f"an image without data was saved; loading the file gives bytes {r['export'][:60]}"))
                 continue
             lo, hi = min(mask), max(mask) + 1
-            want_off = lo
         if r.get("save") != "ok":
             cls = ":zero-length-patterned-node" if empty_patterned(n) else ""
             out.append((f"save_load:{fmt}:save-fails{cls}", f"save_binary_image raised {r.get('save')}"))
             continue
         cls = ""
-        if fmt == "BIN" and is_text(E):
-            cls = ":text-like-content-autodetected"
+        if fmt == "BIN" and is_text_image(E):
+            cls = ":content-is-guessed-as-a-text-image"
+        elif fmt == "BIN" and is_text(E):
+            cls = ":text-content-without-image-data"
         elif fmt != "BIN" and unpatterned_under_pattern(n):
-            cls = ":unpatterned-node-under-patterned-ancestor"
+            cls = ":unpatterned-node-over-ancestor-data"
         if r["load"] != "ok":
             out.append((f"save_load:{fmt}:load-fails{cls}", f"load_binary_image raised {r['load']}"))
             continue
-        want = E[lo - base:hi - base]
-        if r["offset"] != want_off:
-            out.append((f"save_load:{fmt}:address{cls}", f"loaded image starts at {r['offset']:#x}, data starts at {want_off:#x}"))
-        elif r["export"] != want.hex():
+        # every data address [lo, hi) must be present, nothing outside the image, every loaded byte = export() there
+        if r["export"].startswith("!"):
+            out.append((f"save_load:{fmt}:bytes{cls}", f"export() of the loaded image raised {r['export']}"))
+            continue
+        got = bytes.fromhex(r["export"])
+        if fmt == "BIN":
+            g_lo, g_hi = base + r["offset"], base + r["offset"] + len(got)      # BIN carries no address: relative to the caller's offset
+        else:
+            g_lo, g_hi = r["offset"], r["offset"] + len(got)
+        if not (base <= g_lo <= lo and hi <= g_hi <= base + len(E)):
+            out.append((f"save_load:{fmt}:address{cls}", f"loaded image covers [{g_lo:#x}, {g_hi:#x}), data lies in [{lo:#x}, {hi:#x}) "
+                        f"of the image [{base:#x}, {base + len(E):#x})"))
+        elif got != E[g_lo - base:g_hi - base]:
             out.append((f"save_load:{fmt}:bytes{cls}", f"bytes after save/load differ from export() at the same addresses: "
-                        f"{r['export'][:80]} != {want.hex()[:80]}"))
+                        f"{got.hex()[:80]} != {E[g_lo - base:g_hi - base].hex()[:80]}"))
         else:
             for so, sd in r["segments"]:
-                a = r["offset"] + so - want_off + lo
+                a = g_lo + so
                 if bytes.fromhex(sd) != E[a - base:a - base + len(sd) // 2]:
                     out.append((f"save_load:{fmt}:segment-bytes{cls}", f"segment at {a:#x} differs from export()"))
                     break
@@ -435,9 +466,10 @@ def corner_trees():
     c.append(T(3, 0, 0))
     c.append(T(-3, 1, 0))
     zeros = (0, 0, "zeros")
-    c.append(T(16, 1, 0x100, b"", None, [[0, T(0, 1, 0, b"", zeros)], [0, T(0, 1, 8, A)]]))      # C16-F4 witness
-    c.append(T(8, 1, 0x100, b"", None, [[0, T(0, 1, 8, b"", None, [[0, T(0, 1, 0, b"", None)]])]]))  # C16-F3 witness
+    c.append(T(16, 1, 0x100, b"", None, [[0, T(0, 1, 0, b"", zeros)], [0, T(0, 1, 8, A)]]))      # former C16-F4 witness (repaired)
+    c.append(T(8, 1, 0x100, b"", None, [[0, T(0, 1, 8, b"", None, [[0, T(0, 1, 0, b"", None)]])]]))  # former C16-F3 witness (repaired)
     c.append(T(8, 1, 0x100, b"", zeros, [[0, T(0, 1, 8, b"", zeros, [[0, T(0, 1, 0, b"", zeros)]])]]))
+    c.append(T(0, 1, 0x100, b"\xb9\x39", None, [[0, T(4, 1, 1, b"\xa6", None)]]))    # former C16-F1, own-binary variant (repaired)
     d4 = T(0, 1, 1, A, ones)
     for al_, pat_ in ((2, inc), (4, None), (8, num)):
         d4 = T(0, al_, 3, b"\x01", pat_, [[0, d4], [0, T(0, 1, 40, B, None)]])
@@ -457,24 +489,62 @@ def text_like_contents(rng, n):
     return c
 
 
+def gen_cfg(rng):
+    """a `binary-image merge` configuration + the image tree it denotes"""
+    al = rng.choice([1, 1, 4, 8, 16])
+    rootpat = rng.choice([None, (0, 0, "zeros"), (1, 0, "ones"), (2, 0, "inc"), (3, 0xA5, "0xA5"), (3, 0x1234, "0x1234")])
+    cur = rootpat if rootpat is not None else (0, 0, "zeros")      # load_from_config: BinaryPattern(config.get("pattern", "zeros"))
+    regions, kids = [], []
+    cursor = 0
+    for _ in range(rng.choice([1, 2, 2, 3, 4])):
+        explicit = rng.random() < 0.6
+        gap = rng.choice([0, 0, 1, 3, al, 16])
+        off = cursor + gap if explicit else None
+        if explicit and rng.random() < 0.15:
+            off = max(cursor - rng.choice([1, 2, 5]), 0)           # overlapping regions: validate must refuse
+        if rng.random() < 0.6:
+            content = b"\xff" + rnd_bytes(rng, rng.choice([0, 1, 3, 7, 15, 32]))     # first byte 0xFF: not UTF-8, loaded as BIN
+            regions.append({"kind": "file", "content": content.hex(), "offset": off})
+            node = T(0, 1, off if explicit else 0, b"", cur, [[0, T(len(content), 1, 0, content, cur)]])
+            ln = len(content)
+        else:
+            bp = rng.choice([(0, 0, "zeros"), (1, 0, "ones"), (2, 0, "inc"), (3, 0x5A, "0x5a"), (3, 0xBEEF, "0xBEEF")])
+            size = rng.choice([1, 2, 4, 5, 16, 33])
+            regions.append({"kind": "block", "size": size, "pattern": bp[2], "offset": off})
+            node = T(size, 1, off if explicit else 0, b"", bp)
+            cur = bp                                               # the local `pattern` is re-bound by a binary_block region
+            ln = size
+        kids.append([0 if explicit else 1, node])
+        cursor = (off if explicit else ceil_to(cursor, al)) + ln
+    need = ceil_to(cursor, al)
+    size = rng.choice([0, 0, need, need + al, max(need - 1, 0)])
+    t = T(size, al, 0, b"", cur0(rootpat), kids)
+    return {"op": "cfg", "t": t, "cfg": {"op": "cfg", "size": size, "al": al, "pat": None if rootpat is None else rootpat[2],
+                                         "regions": regions}, "twin": False}
+
+
+def cur0(rootpat):
+    return rootpat if rootpat is not None else (0, 0, "zeros")
+
+
 def gen_streams(tier, rng):
     thorough = tier == "thorough"
     s = {}
     s["corner trees"] = [{"op": "tree", "t": t, "twin": True} for t in corner_trees()]
     if thorough:
-        two = two_sibling_layouts(range(-1, 7), range(0, 4), (0, 4, 6), (1, 4))
+        two = two_sibling_layouts(range(-1, 8), range(0, 4), (0, 4, 6, 8), (1, 4))
     else:
         two = two_sibling_layouts(range(-1, 5), range(0, 3), (0, 4), (1, 4))
     s["two-sibling layouts (exhaustive box)"] = [{"op": "tree", "t": t, "twin": False} for t in two]
     trees = []
-    for i in range(12000 if thorough else 1200):
+    for i in range(20000 if thorough else 1200):
         d = rng.choice([1, 2, 2, 3, 3, 4, 4])
         trees.append(gen_tree(rng, d, rng.choice([0.0, 0.0, 0.0, 0.25, 0.5]), big=(i % 10 == 0)))
     s["random trees depth 1..4"] = [{"op": "tree", "t": t, "twin": True} for t in trees]
     # file formats: valid trees with data, base address up to 32 bits
     fm = []
     pool = [t for t in corner_trees()]
-    for i in range(3000 if thorough else 300):
+    for i in range(4000 if thorough else 300):
         pool.append(gen_tree(rng, rng.choice([1, 2, 3, 4]), 0.0, big=(i % 8 == 0)))
     for t in pool:
         try:
@@ -491,6 +561,7 @@ def gen_streams(tier, rng):
         ex = rng.choice([None, None, 0, 0x1234, base, 0xFFFFFFFF])
         fm.append({"op": "fmt", "t": t, "formats": ["BIN", "HEX", "S19"], "exec": ex})
     s["save/load BIN+HEX+S19 of valid trees"] = fm
+    s["binary-image merge configurations (load_from_config)"] = [gen_cfg(rng) for _ in range(4000 if thorough else 200)]
     flat = [{"op": "bin", "content": c} for c in text_like_contents(rng, 40 if thorough else 10)]
     flat += [{"op": "bin", "content": rnd_bytes(rng, rng.choice([1, 2, 3, 4, 16, 33, 256]))} for _ in range(200 if thorough else 40)]
     s["BIN save/load of flat contents (text-like and random)"] = flat
@@ -498,6 +569,8 @@ def gen_streams(tier, rng):
 
 
 def to_payload(c):
+    if c["op"] == "cfg":
+        return c["cfg"]
     if c["op"] == "tree":
         return {"op": "tree", "tree": wire(c["t"]), "twin": c["twin"]}
     if c["op"] == "fmt":
@@ -507,7 +580,7 @@ def to_payload(c):
 
 # ------------------------------------------------------------------ model side
 def model_exprs(c):
-    if c["op"] == "tree":
+    if c["op"] in ("tree", "cfg"):
         return [f"run_case 1 [{vlib.coq_lit(lit(c['t']))}]"]
     if c["op"] == "fmt":
         l = vlib.coq_lit(lit(c["t"]))
@@ -544,7 +617,7 @@ def impl_loaded_value(r):
 def compare(c, res, mvals):
     """list of (stream-part, impl value, model value) that disagree"""
     dis = []
-    if c["op"] == "tree":
+    if c["op"] in ("tree", "cfg"):
         iv = impl_tree_value(res)
         if iv != mvals[0]:
             dis.append(("tree", iv, mvals[0]))
@@ -553,18 +626,19 @@ def compare(c, res, mvals):
         if res["build"] != "ok":
             return dis
         m_hex, m_bin = mvals
-        # bincopy's treatment of empty segments (zero-length pattern blocks) is outside the model
-        for fmt in (() if empty_patterned(resolve(c["t"])) else ("HEX", "S19")):
+        for fmt in ("HEX", "S19"):
+            if m_hex == ("e", 1):
+                continue      # no data records: load_binary_image falls back to the file's own text (third-party text, C16-F5)
             iv = impl_loaded_value(res[fmt])
             if iv != m_hex:
                 dis.append((fmt, iv, m_hex))
         E = bytes.fromhex(res["export"]) if not res["export"].startswith("!") else b""
-        if not is_text(E):      # bincopy's format auto-detection is outside the model
+        if not is_text_image(E):      # bincopy's format auto-detection is outside the model
             iv = impl_loaded_value(res["BIN"])
             if iv != m_bin:
                 dis.append(("BIN", iv, m_bin))
         return dis
-    if not is_text(c["content"]):
+    if not is_text_image(c["content"]):
         iv = impl_loaded_value(res["BIN"])
         if iv != mvals[0]:
             dis.append(("BIN", iv, mvals[0]))
@@ -575,8 +649,9 @@ def compare(c, res, mvals):
 def run(tier):
     rep = vlib.Report(PID, tier)
     rng = vlib.Rng(vlib.seed())
-    shutil.rmtree(SCRATCH, ignore_errors=True) if not os.environ.get("C16_KEEP") else None
-    os.makedirs(SCRATCH, exist_ok=True)
+    files = os.path.join(SCRATCH, "files")          # temp files of the save/load streams (proposed_fix_*.diff stay)
+    shutil.rmtree(files, ignore_errors=True)
+    os.makedirs(files, exist_ok=True)
     # (T1) interval tests of validate() and the size rule of __len__ regenerated from the current source
     try:
         if regen_c16 is None:
@@ -595,6 +670,8 @@ def run(tier):
     model_ok, mout = vlib.coq_make(["Model/ImageModel.vo"])
     vlib.check_theorems(rep, PID, THEOREMS, ["Proofs/ImageProofs.vo"])
     vlib.audit(rep)
+    if tier == "thorough" and hasattr(vlib, "coqchk"):
+        vlib.coqchk(rep, PID, THEOREMS)
     # (T2) + spec oracles
     streams = gen_streams(tier, rng)
     flat, owner = [], []
@@ -602,13 +679,13 @@ def run(tier):
         for c in cs:
             flat.append(c)
             owner.append(name)
-    impl = vlib.run_impl("c16_impl.py", {"scratch": os.path.join(SCRATCH, "files"),
+    impl = vlib.run_impl("c16_impl.py", {"scratch": files,
                                          "cases": [to_payload(c) for c in flat]}, timeout=3000)
     results = impl["results"]
     nfail = 0
     for c, res in zip(flat, results):
         hits = []
-        if c["op"] == "tree":
+        if c["op"] in ("tree", "cfg"):
             hits = oracle_tree(c["t"], res)
         elif c["op"] == "fmt":
             hits = oracle_tree(c["t"], res) + oracle_fmt(c["t"], c, res)
@@ -654,7 +731,7 @@ def run(tier):
             r = results[i]
             if r.get("build") != "ok":
                 continue
-            if flat[i]["op"] == "tree" or flat[i]["op"] == "fmt":
+            if flat[i]["op"] in ("tree", "fmt", "cfg"):
                 d = depth(flat[i]["t"])
                 hist[d] = hist.get(d, 0) + 1
                 if r["validate"] == "ok":
@@ -670,8 +747,7 @@ def run(tier):
                        samples=[to_payload(flat[i]) for i in idx[:2]],
                        exhaustive=name.startswith("two-sibling"),
                        extra={"validate_ok": nvalid, "validate_rejected": ninvalid, "depth_histogram": hist})
-    if not os.environ.get("C16_KEEP"):
-        shutil.rmtree(SCRATCH, ignore_errors=True)
+    shutil.rmtree(files, ignore_errors=True)
     return rep.finish(
         rule="trees are drawn from VERIF_SEED (depth 1..4, boundary-biased offsets/sizes, ~1/3 deliberately invalid) or enumerated "
              "exhaustively (two-sibling box); distinct_nontrivial counts distinct trees with at least one sub-image that the "
@@ -686,7 +762,7 @@ def run(tier):
                      "children are complete before they are added to their parent (bottom-up construction)",
                      "patterns are zeros / ones / inc / non-negative numbers ('rand' is an RNG stream and not modelled)",
                      "base address + size <= 2^32 for HEX / S19",
-                     "BIN reload excludes contents that bincopy auto-detects as SREC/IHEX/TI-TXT/VMEM text (known finding C16-F2)",
+                     "BIN reload excludes contents that are themselves valid SREC/IHEX/TI-TXT/VMEM text with data (known finding C16-F2)",
                      "zero-length sub-images: the property text does not say whether they can overlap; the theorem states the code's rule"])
 
 
